@@ -91,6 +91,13 @@ fn remove_unused_compumethods(module: &mut Module) {
     for typedef_measurement in &mut module.typedef_measurement {
         used_compumethods.insert(typedef_measurement.conversion.clone());
     }
+    for instance in &module.instance {
+        for overwrite in &instance.overwrite {
+            if let Some(conversion) = &overwrite.conversion {
+                used_compumethods.insert(conversion.name.clone());
+            }
+        }
+    }
 
     module
         .compu_method
